@@ -310,6 +310,279 @@ theorem comments_carry_nothing_text (e : Eol) (t : Str) :
       exact clean_emptyComment l0 (splitLines_lines_clean t l0 h0))]
   exact comments_carry_nothing _
 
+/-! ### a byte order mark in front of the file
+
+The directive pattern is searched anywhere in the line, which makes the parser indifferent to what stands in
+front of the first directive as long as it is neither white space, a `#`, nor the first letter of a directive. -/
+
+/-- a character no directive keyword starts with (in either case) -/
+def NotInit (c : Nat) : Prop := asciiLower c ≠ 97 ∧ asciiLower c ≠ 100 ∧ asciiLower c ≠ 117 ∧ asciiLower c ≠ 115 ∧ asciiLower c ≠ 99
+
+theorem matchAt_notInit (c : Nat) (s : Str) (h : NotInit c) : matchAt (c :: s) = none := by
+  obtain ⟨h1, h2, h3, h4, h5⟩ := h
+  simp [matchAt, keywords, lit, startsWith, List.findSome?, h1, h2, h3, h4, h5]
+
+theorem findDirective_skip (p x : Str) (h : ∀ c ∈ p, NotInit c) : findDirective (p ++ x) = findDirective x := by
+  induction p with
+  | nil => rfl
+  | cons c p ih =>
+    simp only [List.cons_append, findDirective, matchAt_notInit c _ (h c (by simp))]
+    exact ih (fun d hd => h d (List.mem_cons_of_mem _ hd))
+
+theorem space_notInit (c : Nat) (h : isPySpace c = true) : NotInit c := by
+  have hc : c ≤ 160 := by
+    simp only [isPySpace, Bool.or_eq_true, Bool.and_eq_true, decide_eq_true_eq, beq_iff_eq] at h
+    omega
+  have hu : isAsciiUpper c = false := by
+    simp only [isPySpace, Bool.or_eq_true, Bool.and_eq_true, decide_eq_true_eq, beq_iff_eq] at h
+    simp only [isAsciiUpper, Bool.and_eq_false_iff, decide_eq_false_iff_not]
+    omega
+  simp only [isPySpace, Bool.or_eq_true, Bool.and_eq_true, decide_eq_true_eq, beq_iff_eq] at h
+  simp only [NotInit, asciiLower, hu]
+  simp only [Bool.false_eq_true, ↓reduceIte]
+  omega
+
+theorem space_ne_hash (c : Nat) (h : isPySpace c = true) : c ≠ 35 := by
+  intro e; subst e; revert h; decide
+
+/-- split a string into its leading white space and the rest -/
+theorem lstrip_split (s : Str) : s = s.takeWhile isPySpace ++ lstrip s := by
+  unfold lstrip; exact (List.takeWhile_append_dropWhile).symm
+
+theorem lstrip_head (s : Str) : ∀ c, (lstrip s).head? = some c → isPySpace c = false := by
+  intro c h
+  unfold lstrip at h
+  induction s with
+  | nil => simp at h
+  | cons a t ih =>
+    rw [List.dropWhile_cons] at h
+    split at h
+    · exact ih h
+    · rename_i ha; simp only [List.head?_cons, Option.some.injEq] at h; subst h; simpa using ha
+
+theorem rstrip_nil : rstrip [] = [] := rfl
+
+theorem rstrip_cons_nonspace (c : Nat) (m : Str) (hc : isPySpace c = false) : rstrip (c :: m) = c :: rstrip m := by
+  simpa using rstrip_append_stop [] m c hc
+
+theorem rstrip_all_space (w : Str) (h : ∀ c ∈ w, isPySpace c = true) : rstrip w = [] := by
+  unfold rstrip
+  have : ∀ l : Str, (∀ c ∈ l, isPySpace c = true) → l.dropWhile isPySpace = [] := by
+    intro l hl
+    induction l with
+    | nil => rfl
+    | cons a t ih =>
+      rw [List.dropWhile_cons, if_pos (hl a (by simp))]
+      exact ih (fun c hc => hl c (List.mem_cons_of_mem _ hc))
+  simp [this w.reverse (fun c hc => h c (List.mem_reverse.mp hc))]
+
+theorem takeWhile_space_all (s : Str) : ∀ c ∈ s.takeWhile isPySpace, isPySpace c = true := by
+  induction s with
+  | nil => intro c hc; cases hc
+  | cons a t ih =>
+    intro c hc
+    rw [List.takeWhile_cons] at hc
+    split at hc
+    · rename_i ha
+      rcases List.mem_cons.mp hc with e | m
+      · subst e; exact ha
+      · exact ih c m
+    · cases hc
+
+theorem lstrip_all_space (w : Str) (h : ∀ c ∈ w, isPySpace c = true) (x : Str) : lstrip (w ++ x) = lstrip x := by
+  unfold lstrip
+  induction w with
+  | nil => rfl
+  | cons a t ih =>
+    rw [List.cons_append, List.dropWhile_cons, if_pos (h a (by simp))]
+    exact ih (fun c hc => h c (List.mem_cons_of_mem _ hc))
+
+theorem lstrip_of_head_nonspace (c : Nat) (m : Str) (hc : isPySpace c = false) : lstrip (c :: m) = c :: m := by
+  simp [lstrip, hc]
+
+/-- the two strips commute -/
+theorem lstrip_rstrip_comm (s : Str) : lstrip (rstrip s) = rstrip (lstrip s) := by
+  have hs := lstrip_split s
+  generalize hw : s.takeWhile isPySpace = w at hs
+  have hwall : ∀ c ∈ w, isPySpace c = true := by rw [← hw]; exact takeWhile_space_all s
+  cases hl : lstrip s with
+  | nil =>
+    rw [hl, List.append_nil] at hs
+    rw [hs, rstrip_all_space w hwall]; rfl
+  | cons c m =>
+    have hc : isPySpace c = false := lstrip_head s c (by rw [hl]; rfl)
+    rw [hl] at hs
+    conv => lhs; rw [hs, rstrip_append_stop w m c hc, lstrip_all_space w hwall, lstrip_of_head_nonspace c _ hc]
+    rw [rstrip_cons_nonspace c m hc]
+
+theorem beforeHash_lstrip (s : Str) : beforeHash (lstrip s) = lstrip (beforeHash s) := by
+  unfold beforeHash lstrip
+  induction s with
+  | nil => rfl
+  | cons a t ih =>
+    by_cases ha : isPySpace a = true
+    · have h35 : a ≠ 35 := space_ne_hash a ha
+      simp only [List.dropWhile_cons, ha, ↓reduceIte, List.takeWhile_cons, bne_iff_ne, ne_eq, h35, not_false_eq_true]
+      exact ih
+    · have ha' : isPySpace a = false := by simpa using ha
+      by_cases h35 : a = 35
+      · subst h35; simp [ha']
+      · simp [ha', h35]
+
+theorem lstrip_idem (s : Str) : lstrip (lstrip s) = lstrip s := by
+  cases h : lstrip s with
+  | nil => rfl
+  | cons c m => exact lstrip_of_head_nonspace c m (lstrip_head s c (by rw [h]; rfl))
+
+/-- the line as the parser looks at it = the leading-white-space-free form of
+`rstrip (beforeHash (rstrip line))` -/
+theorem body_eq (l : Str) : strip (beforeHash (strip l)) = lstrip (rstrip (beforeHash (rstrip l))) := by
+  unfold strip
+  rw [← lstrip_rstrip_comm l, beforeHash_lstrip, lstrip_idem, ← lstrip_rstrip_comm]
+
+/-- what a non-blank, non-comment line body does to the state -/
+def stepBody (st : PState) (b : Str) : PState :=
+  match findDirective b with
+  | none => st
+  | some (f, d) =>
+    let d := scrub d
+    match f with
+    | .userAgent =>
+      if st.prevUA then
+        { st with cur := st.cur.map fun r => if d.isEmpty then r else { r with names := r.names ++ [d] } }
+      else ⟨closeCur st, some ⟨if d.isEmpty then [] else [d], []⟩, true⟩
+    | .allow => { st with prevUA := false, cur := st.cur.map fun r => { r with rules := r.rules ++ [(true, d)] } }
+    | .disallow => { st with prevUA := false, cur := st.cur.map fun r => { r with rules := r.rules ++ [(false, d)] } }
+    | .sitemap => { st with prevUA := false }
+    | .crawlDelay => { st with prevUA := false }
+
+theorem stepLine_eq (st : PState) (line : Str) :
+    stepLine st line =
+      if (strip line).head? = some 35 then st
+      else if (strip (beforeHash (strip line))).isEmpty then ⟨closeCur st, none, false⟩
+      else stepBody st (strip (beforeHash (strip line))) := by
+  unfold stepLine stepBody
+  rfl
+
+theorem stepBody_nil (st : PState) : stepBody st [] = st := by
+  simp [stepBody, findDirective]
+
+theorem lstrip_eq_nil (x : Str) (h : lstrip x = []) : ∀ c ∈ x, isPySpace c = true := by
+  unfold lstrip at h
+  induction x with
+  | nil => intro c hc; cases hc
+  | cons a t ih =>
+    rw [List.dropWhile_cons] at h
+    split at h
+    · rename_i ha
+      intro c hc
+      rcases List.mem_cons.mp hc with e | m
+      · subst e; exact ha
+      · exact ih h c m
+    · cases h
+
+def Junk (c : Nat) : Prop := isPySpace c = false ∧ c ≠ 35 ∧ NotInit c
+
+theorem rstrip_junk_append (p x : Str) (hp : ∀ c ∈ p, Junk c) (hne : p ≠ []) : rstrip (p ++ x) = p ++ rstrip x := by
+  induction p with
+  | nil => exact absurd rfl hne
+  | cons a t ih =>
+    have ha := (hp a (by simp)).1
+    cases t with
+    | nil => simpa using rstrip_cons_nonspace a x ha
+    | cons b t' =>
+      have := ih (fun c hc => hp c (List.mem_cons_of_mem _ hc)) (by simp)
+      rw [List.cons_append, rstrip_cons_nonspace a _ ha, this]; rfl
+
+theorem beforeHash_junk_append (p x : Str) (hp : ∀ c ∈ p, Junk c) : beforeHash (p ++ x) = p ++ beforeHash x := by
+  unfold beforeHash
+  induction p with
+  | nil => rfl
+  | cons a t ih =>
+    have ha := (hp a (by simp)).2.1
+    simp only [List.cons_append, List.takeWhile_cons, bne_iff_ne, ne_eq, ha, not_false_eq_true, ↓reduceIte, List.cons.injEq, true_and]
+    exact ih (fun c hc => hp c (List.mem_cons_of_mem _ hc))
+
+/-- Characters in front of the FIRST line that are neither white space, nor `#`, nor the first letter of a
+directive (a UTF-8 byte order mark read as ISO-8859-1 is three of them) change nothing. -/
+theorem leading_junk_first_line (p l : Str) (hp : ∀ c ∈ p, Junk c) :
+    stepLine PState.init (p ++ l) = stepLine PState.init l := by
+  cases p with
+  | nil => rfl
+  | cons a t =>
+    have hne : a :: t ≠ [] := by simp
+    have ha := hp a (by simp)
+    -- left side
+    have hstrip : strip (a :: t ++ l) = a :: t ++ rstrip l := by
+      unfold strip
+      rw [List.cons_append, lstrip_of_head_nonspace a _ ha.1, ← List.cons_append, rstrip_junk_append _ _ hp hne]
+    have hbody : strip (beforeHash (strip (a :: t ++ l))) = a :: t ++ rstrip (beforeHash (rstrip l)) := by
+      rw [hstrip, beforeHash_junk_append _ _ hp]
+      unfold strip
+      rw [List.cons_append, lstrip_of_head_nonspace a _ ha.1, ← List.cons_append, rstrip_junk_append _ _ hp hne]
+    generalize hR : rstrip (beforeHash (rstrip l)) = R at hbody
+    have hL : stepLine PState.init (a :: t ++ l) = stepBody PState.init (lstrip R) := by
+      rw [stepLine_eq, hbody, hstrip]
+      have h1 : (a :: t ++ rstrip l).head? ≠ some 35 := by
+        simp only [List.cons_append, List.head?_cons, ne_eq, Option.some.injEq]; exact ha.2.1
+      have h2 : (a :: t ++ R).isEmpty = false := by simp
+      rw [if_neg h1, h2]
+      simp only [Bool.false_eq_true, ↓reduceIte]
+      unfold stepBody
+      rw [findDirective_skip (a :: t) R (fun c hc => (hp c hc).2.2)]
+      conv => lhs; rw [lstrip_split R, findDirective_skip _ _ (fun c hc => space_notInit c (takeWhile_space_all R c hc))]
+    rw [hL, stepLine_eq, body_eq, hR]
+    by_cases hc : (strip l).head? = some 35
+    · rw [if_pos hc]
+      -- a comment-only line: R is empty
+      have h0 : beforeHash (lstrip (rstrip l)) = [] := by
+        have : strip l = lstrip (rstrip l) := by unfold strip; exact (lstrip_rstrip_comm l).symm
+        rw [this] at hc
+        cases hx : lstrip (rstrip l) with
+        | nil => simp [beforeHash]
+        | cons c m =>
+          rw [hx] at hc; simp only [List.head?_cons, Option.some.injEq] at hc; subst hc
+          simp [beforeHash]
+      rw [beforeHash_lstrip] at h0
+      have hall := lstrip_eq_nil _ h0
+      have : R = [] := by rw [← hR]; exact rstrip_all_space _ hall
+      rw [this]; exact stepBody_nil _
+    · rw [if_neg hc]
+      by_cases he : (lstrip R).isEmpty = true
+      · rw [if_pos he]
+        have : lstrip R = [] := by simpa using he
+        rw [this, stepBody_nil]; rfl
+      · rw [if_neg he]
+
+theorem bom_is_junk : ∀ c ∈ ([239, 187, 191] : Str), Junk c := by
+  intro c hc
+  simp only [List.mem_cons, List.mem_nil_iff, or_false] at hc
+  rcases hc with rfl | rfl | rfl <;> (refine ⟨by decide, by decide, ?_⟩; unfold NotInit; decide)
+
+/-- A UTF-8 byte order mark in front of a robots.txt changes none of its rule sets. -/
+theorem bom_irrelevant (l : Str) (ls : List Str) :
+    parseLines (([239, 187, 191] ++ l) :: ls) = parseLines (l :: ls) := by
+  unfold parseLines
+  simp only [List.foldl_cons]
+  rw [leading_junk_first_line _ _ bom_is_junk]
+
+/-- text level: the first line of `BOM ++ text` is `BOM ++ first line of text` -/
+theorem splitLines_junk_prefix (p t : Str) (hp : ∀ c ∈ p, c ≠ 10 ∧ c ≠ 13) :
+    splitLines (p ++ t) = (p ++ (splitLines t).head (splitLines_ne_nil t)) :: (splitLines t).tail := by
+  induction p with
+  | nil => simp
+  | cons c p ih =>
+    rw [List.cons_append, splitLines_cons_clean c _ (hp c (by simp))]
+    simp [ih (fun d hd => hp d (List.mem_cons_of_mem _ hd))]
+
+/-- A UTF-8 byte order mark in front of a robots.txt changes none of its rule sets (text level). -/
+theorem bom_irrelevant_text (t : Str) : parseRobots ([239, 187, 191] ++ t) = parseRobots t := by
+  unfold parseRobots
+  rw [splitLines_junk_prefix _ _ (by intro c hc; simp only [List.mem_cons, List.mem_nil_iff, or_false] at hc; rcases hc with rfl | rfl | rfl <;> decide)]
+  rw [bom_irrelevant]
+  congr 1
+  exact List.cons_head_tail (splitLines_ne_nil t)
+
 /-! ### the theorems are about something -/
 
 /-- a comment ending in NEL between the agent line and its rule: the rule stays in the record -/
@@ -317,6 +590,7 @@ example : parseRobots (lit "User-agent: *\n# \x85\nDisallow: /x") = [⟨[[42]], 
 /-- a form feed inside a line ends nothing -/
 example : splitLines (lit "a\x0cb\x0bc\x1cd\x85e") = [lit "a\x0cb\x0bc\x1cd\x85e"] := by decide +kernel
 example : splitLines (lit "a\r\nb\rc\n") = [lit "a", lit "b", lit "c", []] := by decide +kernel
+example : parseRobots (lit "\xef\xbb\xbfUser-agent: *\nDisallow: /x") = [⟨[[42]], [(false, lit "/x")]⟩] := by decide +kernel
 /-- a blank line does end the record: the rule after it belongs to nobody -/
 example : parseRobots (lit "User-agent: *\n\nDisallow: /x") = [] := by decide +kernel
 example : emptyComment (lit "Disallow: /x # note") = lit "Disallow: /x #" := by decide +kernel
